@@ -36,6 +36,9 @@ GStep ==
   /\ IF GMode = "cadence" THEN
         \/ (Rot(FALSE) /\ hist' = Append(hist, [op |-> "Rotate", reinit |-> FALSE]))
         \/ (Tick /\ hist' = Append(hist, [op |-> "Tick", d |-> 1]))
+        \/ \E d \in {RandomElement(1..R)} :          \* longer waits, still within both cadence bounds
+              /\ ~IsEmpty(s) /\ now + d - lastRot <= R /\ (enrolled => now + d - lastEnr <= N)
+              /\ FreeTick(d) /\ hist' = Append(hist, [op |-> "Tick", d |-> d])
         \/ (Enroll /\ hist' = Append(hist, [op |-> "Enroll"]))
      ELSE
         \/ \E b \in {RandomElement({FALSE, FALSE, FALSE, TRUE})} : (FreeRot(b) /\ hist' = Append(hist, [op |-> "Rotate", reinit |-> b]))
